@@ -11,7 +11,7 @@ The driver then, for every exported scenario,
      array when flat_src) - a disagreement with the spec is a MachineryError (the spec is wrong), never a violation;
  (b) BINDING: builds openmdao.utils.indexer.indexer(idx, src_shape=shape, flat_src=flat) along three construction
      paths (src_shape= argument, set_src_shape afterwards, set_src_shape after having been shaped differently), for
-     ndarray and list spellings of index arrays, through om.slicer where the index has no array, and compares
+     ndarray and (first path) list spellings of index arrays, through om.slicer where the index has no array, and compares
      shaped_array() (exact), as_array() and flat() (applied to the flat source), indexed_src_shape, indexed_src_size and
      indexed_val(arange) with the spec; array2slice(arr) (and indexer(..., try_slice=True)) must select the positions
      the spec gives for arr.
@@ -27,8 +27,8 @@ from ..tlc import MachineryError
 from ..util import pmap, split
 
 NONE = 99999
-NPROC = 8
-TLC_WORKERS = 8
+NPROC = int(os.environ.get('VERIF_PROCS', '8'))
+TLC_WORKERS = int(os.environ.get('VERIF_TLC_WORKERS', '8'))
 
 LAWS = ['LenLaw', 'RangeLaw', 'FlatLaw', 'IdentityLaw', 'ApiLaw', 'InjectiveLaw', 'ComposeLaw', 'A2SLaw',
         'SliceBackLaw']
@@ -187,7 +187,8 @@ def run_index_scenario(s, v, res):
     compared = False
     spellings = [(f, False) for f in forms] + ([] if has_array(t) else [('nd', True)])
     for form, slicer in spellings:
-        for path in range(3):
+        # the list and om.slicer spellings: first construction path only
+        for path in (range(3) if form == 'nd' and not slicer else range(1)):
             idx = py_index(t, form)
             if slicer:
                 idx = through_slicer(idx)
@@ -570,6 +571,7 @@ def _cfg(quick, extfile, classes=ALL_CLASSES):
   SingleSel = %d
   MixLvl2 = 2
   MixLvl3 = 1
+  MixMinExt3 = %d
   EllZero = %s
   ExtFile = "%s"
   Classes = {%s}
@@ -577,7 +579,7 @@ INIT Init
 NEXT Next
 %s
 INVARIANT Export
-''' % (3 if quick else 4, 1 if quick else 2, 'FALSE' if quick else 'TRUE', extfile,
+''' % (3 if quick else 4, 1 if quick else 2, 2 if quick else 1, 'FALSE' if quick else 'TRUE', extfile,
        ', '.join('"%s"' % c for c in classes), '\n'.join('INVARIANT ' + x for x in LAWS))
 
 
@@ -712,7 +714,8 @@ def run(ctx):
                 'start/stop in {None} u -n-1..n+1 and step in {None,1,-1,2,-2}, all 1-D arrays of length <=3 over '
                 '-n..n-1, 2-D arrays, out-of-range arrays) bare or in a tuple on every axis of rank-1 shapes and of '
                 'selected rank-2/3 shapes (extents <= %d), flat and non-flat; tuples of representative terms on all '
-                'rank-2/3 shapes with extents <= %d with shorter tuples and an ellipsis at every position; two-stage '
+                'rank-2/3 shapes with extents <= %d (quick: three-term tuples where all extents >= 2) with shorter tuples and '
+                'an ellipsis at every position; two-stage '
                 'chains; all integer arrays of length <=4 over -2..6 for array2slice; %d seeded random larger '
                 'scenarios (rank <= 4) evaluated by TLC from a file.  Each is first compared with NumPy (oracle '
                 'self-check) and then executed on openmdao.utils.indexer along 3 construction paths x ndarray/list/'
